@@ -157,13 +157,23 @@ pub fn perform(quotes: &[Quote], base: &Option<String>, ops: &[Op], r: &mut Rng)
     let names = probe_names(quotes);
     let qj: Vec<Value> = quotes.iter().map(|q| q.json()).collect();
     let basej: Vec<String> = base.iter().cloned().collect();
-    let mut fxr = match try_new(quotes, base) {
+    // a third of the histories are made the way Python makes them: the class constructor, then the Python-facing `update` /
+    // `set_ad_order` methods (a refusal is then a raised exception)
+    use rateslib::verif::rates_py as rpy;
+    let via_py = r.chance(0.34);
+    let via = if via_py { "py" } else { "core" };
+    let built = if via_py {
+        let rates: Result<Vec<FXRate>, String> = quotes.iter().map(|q| q.to_rate()).collect();
+        let base_ccy = base.as_ref().map(|b| Ccy::try_new(b).unwrap());
+        match rates { Err(e) => Outcome::Ok(Err(e)), Ok(v) => guard(move || rpy::new(v, base_ccy)) }
+    } else { try_new(quotes, base) };
+    let mut fxr = match built {
         Outcome::Ok(Ok(f)) => {
-            ev.push(json!({"op":"new","quotes":qj,"base":basej,"o":"ok","state":state_json(&f, &names, r)}));
+            ev.push(json!({"op":"new","quotes":qj,"base":basej,"via":via,"o":"ok","state":state_json(&f, &names, r)}));
             f
         }
         Outcome::Ok(Err(_)) => {
-            ev.push(json!({"op":"new","quotes":qj,"base":basej,"o":"err"}));
+            ev.push(json!({"op":"new","quotes":qj,"base":basej,"via":via,"o":"err"}));
             return ev;
         }
         Outcome::Panic(_) => {
@@ -171,11 +181,6 @@ pub fn perform(quotes: &[Quote], base: &Option<String>, ops: &[Op], r: &mut Rng)
             return ev;
         }
     };
-    // a third of the histories make their calls the way Python does: through the Python-facing `update` / `set_ad_order`
-    // methods (a refusal is then a raised exception)
-    use rateslib::verif::rates_py as rpy;
-    let via_py = r.chance(0.34);
-    let via = if via_py { "py" } else { "core" };
     for op in ops {
         match op {
             Op::Update(upd) => {
